@@ -26,7 +26,7 @@ SlotBytes(c, s) ==
     [] OTHER -> EncS(Contents[c], s)
 Valid(c, s) == (s = "zero" => c = 1) /\ (s = "bigkey" => (c \in {2, 3, 6} /\ ~Contents[c].m[1][1].neg))
 
-Positions == {"sign1", "mac0", "encrypt0", "signature", "sign-body", "sign-signer0", "sign-signer2", "mac-body", "encrypt-body", "recipient",
+Positions == {"sign1-detached", "sign-body-detached", "sign-signer1-detached", "sign1", "mac0", "encrypt0", "signature", "sign-body", "sign-signer0", "sign-signer2", "mac-body", "encrypt-body", "recipient",
               "encrypt-recip1", "mac-recip2", "encrypt-recip3", "cs-unprot", "cs-in-prot", "supppub", "kdf"}
 BstrOf(m) == Hd(2, MagOfNat(Len(m))) \o m
 SigW(p) == <<131>> \o p \o <<160, 65, 7>>                                        \* [p, {}, h'07']
@@ -35,6 +35,9 @@ PartyNilB == <<131, 246, 246, 246>>
 Wrap(pos, sl) ==
   LET p == BstrOf(sl) IN
   CASE pos = "sign1" -> <<132>> \o p \o <<160, 65, 5, 65, 7>>                     \* [p, {}, h'05', h'07']
+    [] pos = "sign1-detached" -> <<132>> \o p \o <<160, 246, 65, 7>>                \* [p, {}, nil, h'07']
+    [] pos = "sign-body-detached" -> <<132>> \o p \o <<160, 246, 130>> \o SigW(<<64>>) \o SigW(<<67, 161, 1, 38>>)    \* nil payload, two signers
+    [] pos = "sign-signer1-detached" -> <<132, 67, 161, 1, 38, 160, 246, 130>> \o SigW(<<64>>) \o SigW(p)
     [] pos = "mac0" -> <<132>> \o p \o <<160, 65, 5, 65, 7>>
     [] pos = "encrypt0" -> <<131>> \o p \o <<160, 65, 9>>
     [] pos = "signature" -> SigW(p)
@@ -52,8 +55,8 @@ Wrap(pos, sl) ==
     [] pos = "supppub" -> <<130, 24, 128>> \o p
     [] pos = "kdf" -> <<132, 1>> \o PartyNilB \o PartyNilB \o <<130, 24, 128>> \o p
 TyOf(pos) ==
-  CASE pos \in {"sign1", "cs-unprot", "cs-in-prot"} -> "CoseSign1" [] pos = "mac0" -> "CoseMac0" [] pos = "encrypt0" -> "CoseEncrypt0"
-    [] pos = "signature" -> "CoseSignature" [] pos \in {"sign-body", "sign-signer0", "sign-signer2"} -> "CoseSign"
+  CASE pos \in {"sign1", "sign1-detached", "cs-unprot", "cs-in-prot"} -> "CoseSign1" [] pos = "mac0" -> "CoseMac0" [] pos = "encrypt0" -> "CoseEncrypt0"
+    [] pos = "signature" -> "CoseSignature" [] pos \in {"sign-body", "sign-signer0", "sign-signer2", "sign-body-detached", "sign-signer1-detached"} -> "CoseSign"
     [] pos \in {"mac-body", "mac-recip2"} -> "CoseMac" [] pos \in {"encrypt-body", "encrypt-recip1", "encrypt-recip3"} -> "CoseEncrypt"
     [] pos = "recipient" -> "CoseRecipient" [] pos = "supppub" -> "SuppPubInfo" [] pos = "kdf" -> "CoseKdfContext"
 
@@ -64,7 +67,13 @@ Fc(f, i) == [ev |-> "focus", f |-> f, i |-> i]
 DecR(ctx) == [ev |-> "verify", m |-> "decrypt", ctx |-> ctx, aad |-> Aad, res |-> Dr]
 (* follow-ups after the decode: what is done with the value at / around the position *)
 Follow(pos) ==
-  CASE pos = "sign1" -> <<[ev |-> "tbs", m |-> "tbs_data", aad |-> Aad], [ev |-> "verify", m |-> "verify_signature", aad |-> Aad, res |-> Vr]>>
+  CASE pos = "sign1-detached" -> <<[ev |-> "tbs", m |-> "tbs_detached_data", pl |-> <<5, 5>>, aad |-> Aad],
+                                  [ev |-> "verify", m |-> "verify_detached_signature", pl |-> <<5, 5>>, aad |-> Aad, res |-> Vr]>>
+    [] pos \in {"sign-body-detached", "sign-signer1-detached"} ->
+         <<[ev |-> "tbs", m |-> "tbs_detached_data", pl |-> <<5, 5>>, aad |-> Aad, which |-> 1],
+           [ev |-> "verify", m |-> "verify_detached_signature", pl |-> <<5, 5>>, aad |-> Aad, which |-> 1, res |-> Vr],
+           [ev |-> "verify", m |-> "verify_detached_signature", pl |-> <<5, 5>>, aad |-> Aad, which |-> 0, res |-> Vr]>>
+    [] pos = "sign1" -> <<[ev |-> "tbs", m |-> "tbs_data", aad |-> Aad], [ev |-> "verify", m |-> "verify_signature", aad |-> Aad, res |-> Vr]>>
     [] pos = "mac0" -> <<[ev |-> "verify", m |-> "verify_tag", aad |-> Aad, res |-> Vr]>>
     [] pos = "encrypt0" -> <<[ev |-> "verify", m |-> "decrypt", aad |-> Aad, res |-> Dr]>>
     [] pos = "signature" -> <<>>
@@ -103,7 +112,8 @@ AllSteps == Steps \o CsSteps
 
 (* where the retained bytes must sit in the decoded value *)
 OrigAt(v) ==
-  CASE st.pos \in {"sign1", "mac0", "encrypt0", "signature", "sign-body", "mac-body", "encrypt-body", "recipient", "supppub"} -> v.prot.orig
+  CASE st.pos \in {"sign1", "sign1-detached", "sign-body-detached", "mac0", "encrypt0", "signature", "sign-body", "mac-body", "encrypt-body", "recipient", "supppub"} -> v.prot.orig
+    [] st.pos = "sign-signer1-detached" -> v.sigs[2].prot.orig
     [] st.pos = "sign-signer0" -> v.sigs[1].prot.orig
     [] st.pos = "sign-signer2" -> v.sigs[3].prot.orig
     [] st.pos = "encrypt-recip1" -> v.recips[1].prot.orig
@@ -113,7 +123,8 @@ OrigAt(v) ==
     [] st.pos = "cs-in-prot" -> v.prot.hdr.cs[1].prot.orig
     [] st.pos = "kdf" -> v.pub.prot.orig
 HdrAt(v) ==
-  CASE st.pos \in {"sign1", "mac0", "encrypt0", "signature", "sign-body", "mac-body", "encrypt-body", "recipient", "supppub"} -> v.prot.hdr
+  CASE st.pos \in {"sign1", "sign1-detached", "sign-body-detached", "mac0", "encrypt0", "signature", "sign-body", "mac-body", "encrypt-body", "recipient", "supppub"} -> v.prot.hdr
+    [] st.pos = "sign-signer1-detached" -> v.sigs[2].prot.hdr
     [] st.pos = "sign-signer0" -> v.sigs[1].prot.hdr
     [] st.pos = "sign-signer2" -> v.sigs[3].prot.hdr
     [] st.pos = "encrypt-recip1" -> v.recips[1].prot.hdr
@@ -136,7 +147,7 @@ InvProt == Go =>
   /\ obs[3].bytes = <<Wire>>                                           \* re-encoding writes the received bytes
   /\ \A i \in 4..Len(obs) :                                            \* structures carry the received slot
        LET sb == IF obs[i].bytes # <<>> THEN obs[i].bytes[1] ELSE IF obs[i].cb # <<>> THEN Last(obs[i].cb) ELSE <<>> IN
-       (sb # <<>> /\ AllSteps[i].ev # "encode") => Contains(sb, BstrOf(Slot)) \/ st.pos \in {"sign-signer2"}
+       (sb # <<>> /\ AllSteps[i].ev # "encode") => Contains(sb, BstrOf(Slot)) \/ st.pos \in {"sign-signer2", "sign-signer1-detached"}
   /\ PrintT(ToJson([kind |-> "session", props |-> <<"C02">>, steps |-> AllSteps, nt |-> TRUE,
                     expect |-> [i \in 1..Len(obs) |-> [kind |-> obs[i].kind, err |-> obs[i].err, bytes |-> obs[i].bytes, cb |-> obs[i].cb,
                                                       ret |-> obs[i].ret, val |-> obs[i].val, judge |-> TRUE, slotfree |-> FALSE, pinerr |-> FALSE]]]))
